@@ -1133,12 +1133,15 @@ namespace riddle
             error("expected either '(' or '+' or '-' or '!' or '[' or 'new' or a literal or an identifier..");
         }
 
+        size_t chain = 0; // the operators applied to 'e' so far: each of them makes 'e' the first operand of a new node, i.e., nests it one level deeper..
         while (
             ((tk->sym == EQEQ_ID || tk->sym == BANGEQ_ID) && 0 >= pr) ||
             ((tk->sym == LT_ID || tk->sym == LTEQ_ID || tk->sym == GTEQ_ID || tk->sym == GT_ID || tk->sym == IMPLICATION_ID || tk->sym == BAR_ID || tk->sym == AMP_ID || tk->sym == CARET_ID) && 1 >= pr) ||
             ((tk->sym == PLUS_ID || tk->sym == MINUS_ID) && 2 >= pr) ||
             ((tk->sym == STAR_ID || tk->sym == SLASH_ID) && 3 >= pr))
         {
+            if (depth + ++chain > max_depth) // `a == a == .. == a` is as deep a tree as `((..(a)..))`: visiting (and deleting) it recurses..
+                error("nesting too deep..");
             switch (tk->sym)
             {
             case EQEQ_ID:
